@@ -3,3 +3,4 @@ import QeepGen.Act
 import QeepGen.Loss
 import QeepGen.FC
 import QeepGen.SGD
+import QeepGen.Valid
